@@ -1,6 +1,6 @@
 (** C20 - the compile-time state that the fill / try / code-macro arms save is restored, on the Ok
     and on the Err path: a reused compiler keeps the pre-evaluation mode its embedder chose. *)
-From Coq Require Import List Arith NArith Bool Lia.
+From Coq Require Import List Arith NArith Bool String Lia.
 From UV Require Import Model.Node Model.Gate.
 Import ListNotations.
 
@@ -107,4 +107,36 @@ Theorem unfixed_fill_leaks_mode : exists s w, no_macro w = true /\
   fst (ccompile false 200 s w) = false /\ cs_mode (snd (ccompile false 200 s w)) = Lsp /\ cs_mode s = Normal.
 Proof.
   exists (CS Normal false false 0), (WFill (WLeaf false) (WLeaf true)). vm_compute. repeat split; reflexivity.
+Qed.
+
+(** * The backend of compile-time evaluation *)
+Theorem comptime_backend_never_native : forall m,
+  (comptime_backend m = BSafe /\ m <> Lsp) \/ (comptime_backend m = BOwn /\ m = Lsp).
+Proof. intros []; cbn; [left | left | left | right]; split; congruence. Qed.
+(** RECORD (before fix 2bf92f0): editor mode evaluated on the native backend, whatever backend the
+    compiler had been given *)
+Theorem comptime_backend_refuted_pre : exists m, comptime_backend_pre m = BNative.
+Proof. exists Lsp. reflexivity. Qed.
+
+(** * The pre-evaluation cache *)
+(** on a miss the calls are exactly those of evaluating on the compiler's own backend *)
+Theorem cache_miss_own_backend : forall key keyb val eval c b k,
+  clookup key keyb val k c = None ->
+  snd (fst (comptime_cached key keyb val eval c b k)) = snd (eval b k).
+Proof.
+  intros key keyb val eval c b k H. unfold comptime_cached. rewrite H.
+  destruct (eval b k); reflexivity.
+Qed.
+(** Finding (code as it stands, confirmed on the implementation with two compilers on one thread):
+    a hit serves the value another backend produced, with no call on the asking compiler's backend.
+    Backend 0 allows the read, backend 1 denies it. *)
+Theorem cache_crosses_backends_refuted :
+  exists (eval : nat -> nat -> option string * list event) c1 v1,
+    comptime_cached nat Nat.eqb (option string) eval [] 0 7 = (Some v1, ["file_read_all"%string], c1) /\
+    eval 1 7 = (None, ["file_read_all"%string]) /\
+    comptime_cached nat Nat.eqb (option string) eval c1 1 7 = (Some v1, [], c1).
+Proof.
+  exists (fun b k => if Nat.eqb b 0 then (Some "contents"%string, ["file_read_all"%string])
+                     else (None, ["file_read_all"%string])).
+  eexists. eexists. vm_compute. repeat split; reflexivity.
 Qed.
